@@ -31,3 +31,43 @@ static u8 store[4096];
         CHECK(o[8] == 0, "buf points at element 0");                                                            \
         END; }
 DESC(i, 4, 1) DESC(f, 4, 1) DESC(d, 8, 1) DESC(s, 2, 1) DESC(v2f, 4, 2) DESC(v3f, 4, 3) DESC(v4d, 8, 4) DESC(v3i, 4, 3)
+
+/* ---- import: fixedArrayFromBuffer<FixedArray<T>>(obj).  The exporter is modelled by its contract: PyObject_GetBuffer(PyBUF_FORMAT |
+   PyBUF_STRIDES) hands back an ARBITRARY well-formed, C-contiguous description - ndim 1 or 2, arbitrary shape, itemsize 1/2/4/8, an
+   arbitrary one-character format, len == product(shape) * itemsize, buf valid for exactly len bytes.  The import must either raise
+   (buffer released, nothing written) or return an array that holds exactly the source elements; it accepts only buffers whose
+   element format and total size match the array type.  Out-of-bounds reads of buf and writes of the new array are CBMC
+   pointer/bounds failures. */
+#ifdef IMPORT_HARNESS
+static struct T_struct_Py_buffer the_view; static int released, contiguous;
+uint32_t STUB_PyObject_CheckBuffer(struct T_struct__object* o) { return 1; }
+uint32_t STUB_PyObject_GetBuffer(struct T_struct__object* o, struct T_struct_Py_buffer* v, uint32_t flags) { *v = the_view; return 0; }
+void STUB_PyBuffer_Release(struct T_struct_Py_buffer* v) { released++; }
+uint32_t STUB_PyBuffer_IsContiguous(struct T_struct_Py_buffer* v, uint8_t order) { return contiguous; }
+#define IMPORT(TAG, FMT, ELSZ)                                                                                  \
+    HARNESS(h_import_##TAG)                                                                                     \
+    {   IN(u8, ndim); IN(u64, s0); IN(u64, s1); IN(u8, isz); IN(u8, f0); IN(u8, ro);                            \
+        ASSUME(ndim >= 1 && ndim <= 2 && s0 <= 2 && s1 >= 1 && s1 <= 3 && (isz == 1 || isz == 2 || isz == 4 || isz == 8)); \
+        ASSUME(f0 == 'f' || f0 == 'd' || f0 == 'i' || f0 == 'h' || f0 == 'B' || f0 == 'l' || f0 == '>');        \
+        if (ndim == 1) ASSUME(s1 == 1);                                                                         \
+        ASSUME(isz == ((f0 == 'd' || f0 == 'l') ? 8 : (f0 == 'f' || f0 == 'i' || f0 == '>') ? 4 : f0 == 'h' ? 2 : 1));   /* itemsize is the size of the format's type */ \
+        u64 nbytes = s0 * s1 * isz;                                                                             \
+        u8* src = malloc(nbytes ? nbytes : 1); ASSUME(src != 0);                                                \
+        INA(u8, bytes, 48); for (u64 k = 0; k < 48; k++) if (k < nbytes) src[k] = bytes[k];                      \
+        static u64 shp[2], strd[2]; static u8 fmt[2]; static struct T_struct__object obj;                       \
+        shp[0] = s0; shp[1] = s1; strd[0] = s1 * isz; strd[1] = isz; fmt[0] = f0; fmt[1] = 0;                    \
+        the_view.f0 = src; the_view.f1 = &obj; the_view.f2 = nbytes; the_view.f3 = isz; the_view.f4 = ro & 1; the_view.f5 = ndim; \
+        the_view.f6 = fmt; the_view.f7 = shp; the_view.f8 = strd; the_view.f9 = 0; the_view.f10 = 0;             \
+        released = 0; contiguous = 1; __verif_exc = 0;                                                          \
+        struct GFA* a = (struct GFA*)w_from_buffer_##TAG(&obj); int ex = __verif_exc; __verif_exc = 0;           \
+        CHECK(released == 1, "the buffer view is released exactly once, on success and on rejection");          \
+        if (!ex) {                                                                                              \
+            CHECK(a != 0, "an array is returned");                                                              \
+            CHECK(f0 == FMT, "accepted => the buffer's element format is the array's element type");            \
+            CHECK(nbytes == s0 * (ELSZ), "accepted => the buffer holds exactly shape[0] elements of the array's element size"); \
+            CHECK(a->len == s0 && a->stride == 1 && a->writable, "the new array has shape[0] elements, unit stride, writable"); \
+            for (u64 k = 0; k < 48; k++) if (k < nbytes && k < s0 * (ELSZ)) CHECK(((u8*)a->ptr)[k] == bytes[k], "the array holds exactly the source bytes"); \
+        }                                                                                                       \
+        END; }
+IMPORT(f, 'f', 4) IMPORT(v3f, 'f', 12)
+#endif
